@@ -25,7 +25,20 @@ CLAIMED = {
 PENDING_REASON = "check not built yet in this round (model and proofs in progress; see DESIGN.md §9 build order)"
 
 
+def load_fragments():
+    """harness/props/Cxx.manifest.json fragments: {"technique","text","note","design_ref"}"""
+    for f in sorted((VERIF / "harness" / "props").glob("C*.manifest.json")):
+        pid = f.name.split(".")[0]
+        if not (VERIF / "harness" / "props" / (pid + ".py")).exists():
+            continue
+        d = json.loads(f.read_text())
+        if d.get("disabled"):
+            continue
+        CLAIMED[pid] = (d["technique"], d["text"], d["note"], d.get("design_ref", "DESIGN.md §5 " + pid))
+
+
 def main():
+    load_fragments()
     checks = []
     for pid in ALL:
         if pid not in CLAIMED:
